@@ -55,6 +55,22 @@ check('C02',
       'Python arithmetic as oracle (true division, **, % on non-negatives); random.Random subclass with choice-point primitives swapped in at bardolph_math.py_random.',
       'DESIGN.md C02')
 
+check('C03',
+      'bounded-exhaustive program enumeration (scoping alphabet) vs reference interpreter',
+      'Names x,y,z are used at once as globals, parameters and locals: every single-routine program with body cost <=2 (thorough 3) '
+      'x 6 parameter lists x every argument tuple x 4 call-site kinds, every two-routine program of the call-form x argument-naming x '
+      'context product, calls as arguments of calls, recursion templates to depth 3 (locals before/after, inside loops, with return value). '
+      'Printed values before, inside and after each call must equal the reference scoping rules.',
+      'Reference scoping per docs/language.rst (mc/lang/ref.py); programs reading a name with no textually earlier assignment are not generated (compile-time rule).',
+      'DESIGN.md C03')
+check('C04',
+      'bounded-exhaustive enumeration of loop forms x populations vs reference interpreter',
+      'Every loop spec (counts 0,1,2,3,5 as literal/variable/expression; all 36 integer ranges in [-2,3]; interpolation and cycle grids incl. '
+      'negative/fractional; all/group/location/in-list iteration with from/cycle) x break none/unconditional/second-pass x inside a routine; '
+      'cycle in each unit mode; nested pairs (full x reduced, thorough full x full) x 5 break placements; populations of 0, 1, 2, 4 lights.',
+      'Reference loop semantics DESIGN.md Appendix A; loop variables are not read after their loop (not documented).',
+      'DESIGN.md C04')
+
 NOT_YET = 'check not built yet in this session (design in DESIGN.md); will be claimed when its command exists'
 
 
